@@ -86,7 +86,7 @@ impl Limiter {
     pub closed spec fn next_of(&self) -> &Box<dyn Process> { &self.next }
 
 //@@ fn limiter.create_process = src/limits.rs :: impl Limiter :: fn create_process
-//@@ safety C08 C03
+//@@ safety C08 C03 C14
 //@@ ret r
 //@@ header-from specs/stage/limiter.create_process.spec
 //@@ endfn
@@ -516,7 +516,7 @@ impl SortProcess {
         ensures
             final(self).same_but_data(old(self)),
             // the top-N shortcut drops exactly the row that would have been emitted last (for ties: the newest)
-            final(self).bk() == bk_remove_last(old(self).is_asc(), old(self).bk()), // @obl STAGE.sorter.remove_last : C08 C07
+            final(self).bk() == bk_remove_last(old(self).is_asc(), old(self).bk()), // @obl STAGE.sorter.remove_last : C08 C07 C03
 //@@ endfn
 }
 
